@@ -304,7 +304,7 @@ def error_budget(L, R, tier):
     from ..apicheck import ApiBox, shapes_for
     Ns = [4, 8, 16, 32, 128, 512, 2048] if tier == 'quick' else [4, 8, 16, 32, 64, 128, 256, 512, 1024, 2048, 4096]
     jobs = [(nm, N // 2, 'generic') for N in Ns for nm in ('reim_fft', 'reim_ifft')] + \
-           [(nm, N // 2, 'accel') for N in Ns if N <= 16 for nm in ('reim_fft', 'reim_ifft')]
+           [(nm, N // 2, 'accel') for N in Ns for nm in ('reim_fft', 'reim_ifft')]
     with ProcessPoolExecutor(max_workers=min(12, len(jobs))) as ex:
         res = dict(zip(jobs, ex.map(_error_bound_job, jobs)))
     # the pointwise product kernels
@@ -363,8 +363,6 @@ def error_budget(L, R, tier):
         unk = None
         done = []
         for N in Ns:
-            if cpu == 'accel' and N > 16:
-                continue
             rf, ri = res[('reim_fft', N // 2, cpu)], res[('reim_ifft', N // 2, cpu)]
             if rf[0] != 'ok' or ri[0] != 'ok':
                 unk = unk or 'N=%d: transform bound not established (%s)' % (N, (rf if rf[0] != 'ok' else ri)[1])
@@ -401,15 +399,15 @@ def run(tier):
     zero_rows(L, R, tier)
     n3 = precision(L, G, R)
     n4 = error_budget(L, R, tier)
-    R.floor('transform error bounds used for the product budget', n4, 14)
+    R.floor('transform error bounds used for the product budget', n4, 24)
     R.evaluations = n1 + n2
     R.floor('bilinear coefficients compared with the negacyclic product', n1, 8000)
     R.floor('transform call sites traced', n2, 150)
     R.floor('functions in the FFT64 call tree', n3, 80)
     R.rules.append('evaluation = one coefficient of the bilinear form or one traced call site')
     R.assumptions += ['coefficients are those of the reference data path read over the reals with the stored twiddles; the '
-                      'floating-point error bound E: established a priori (clause B) for N <= 2048 (thorough 4096) on the reference path '
-                      'and N <= 16 on the AVX path; for larger N the provable bound exceeds the stated one (not decided)',
+                      'floating-point error bound E: established a priori (clause B) for N <= 2048 (thorough 4096) on both CPU paths '
+                      '(assembly kernels lifted); for larger N the provable bound exceeds the stated one (not decided)',
                       'composition shown for N <= 16 (quick) / 32 (thorough); accelerated kernels are tied to the reference by C07']
     return R.finish('E4 bilinear forms of the product pipelines against the negacyclic product; instantiated module tables and '
                     'traced transform call sites; E4 support sets for zero rows; type scan for single precision.')
